@@ -536,7 +536,9 @@ PROPS["C11"] = {
              "while 1..3 goroutines keep querying (every query and event tries to watch it again), then a complete directory is renamed "
              "into place and the cache must converge (F19: a watch added to a directory that was already leaving). dirchurn unit: the same machine restricted to directory-level churn (mkdir, remove, rename "
              "away, rename into place) plus empty creates and move-ins, so that histories are dense in the transitions in which a watch has "
-             "to be dropped and re-added. during unit: the harness owns the schedule of one scan - the last file of one directory (any list "
+             "to be dropped and re-added. Pacing between two changes is drawn from {none, yield, 1 ms, 20 ms, query, hold, release, release+settle}: hold takes the cache's exported mutex so that the watcher goroutine "
+             "cannot handle events until a release (the harness owns the schedule: the events of the following changes pile up and are handled in one burst against a later directory state, "
+             "as with a slow or descheduled watcher goroutine - F23, F24). sched unit: directory-level churn paced only by hold / release / query, no wall-clock pacing. during unit: the harness owns the schedule of one scan - the last file of one directory (any list "
              "position) is a symbolic link to a named pipe outside the configured directories, so NewCache / Configure(dirs) on a manual or "
              "an auto cache - or the first query after that directory, missing until then, was renamed into place - blocks inside its scan until the harness feeds the pipe; in that window one generated change (create, rewrite, "
              "remove, move-in, replace by rename, mkdir+file of a missing directory, remove or rename away a directory) is made in a directory "
@@ -562,6 +564,7 @@ PROPS["C11"] = {
         {"name": "during", "mode": "rapid", "run": "TestC11During", "race": True, "shards": 4, "checks": {"quick": 320, "thorough": 8000}},
         {"name": "dirchurn", "mode": "rapid", "run": "TestC11DirChurn", "race": True, "shards": 8, "checks": {"quick": 800, "thorough": 24000}},
         {"name": "addrace", "mode": "rapid", "run": "TestC11AddRace", "race": True, "shards": 8, "checks": {"quick": 160, "thorough": 4000}},
+        {"name": "sched", "mode": "rapid", "run": "TestC11Sched", "race": True, "shards": 8, "checks": {"quick": 800, "thorough": 24000}},
     ],
 }
 
